@@ -7,15 +7,17 @@ worktree of /repo (which the caller has already mutated), print the verdict.
    remove:  git -C /repo worktree remove --force /tmp/wt-foo
 /repo itself is never touched, so several mutation tests can run in parallel.
 
-The check that is run is the COMMITTED one: a git worktree of /verif's HEAD
+With MUTEST_SNAPSHOT=1 the check that is run is the COMMITTED one: a git worktree of /verif's HEAD
 (.build/snap-Cxx, refreshed on every call; unchanged files keep their mtimes so
 the Coq closure is rebuilt incrementally).  Edits in flight in /verif's working
 tree (a builder in the middle of a proof) therefore cannot be blamed on the
-mutant.  MUTEST_WORKTREE=1 runs /verif's working tree instead."""
+mutant.  This mode is selected by MUTEST_SNAPSHOT=1 (lib/seedkeep.sh and
+lib/reseed.sh set it); without it the check of /verif's WORKING TREE is run, which
+is what a builder who is strengthening a harness wants."""
 import subprocess, sys, json, os
 pid, wt = sys.argv[1:3]
 root = "/verif"
-if not os.environ.get("MUTEST_WORKTREE"):
+if os.environ.get("MUTEST_SNAPSHOT"):
     snap = "/verif/.build/snap-" + pid
     head = subprocess.run(["git", "-C", "/verif", "rev-parse", "HEAD"], stdout=subprocess.PIPE, text=True).stdout.strip()
     if not os.path.exists(os.path.join(snap, "check")):
